@@ -35,6 +35,9 @@ DESCS = (
     "First line\nsecond line",
     "Para one\n\nPara two, after a blank line",
     "Kept blank\n \nabove: a line holding one space",
+    "A single line that is longer than seventy characters but well below the wrap limit.",
+    'Ends with a "quote"',
+    "  leading blanks on the first line\nsecond",
 )
 
 
@@ -42,7 +45,7 @@ def _desc(r, indent=""):
     d = DESCS[r.randrange(len(DESCS))] if r.random() < 0.45 else None
     if d is None:
         return ""
-    if "\n" in d:
+    if "\n" in d or d.endswith('"') or d.startswith(" "):
         body = "\n".join(indent + l if l else "" for l in d.split("\n"))
         return '%s"""\n%s\n%s"""\n' % (indent, body, indent)
     return '%s"""%s"""\n' % (indent, d)
@@ -74,6 +77,8 @@ def _deprecated(r):
 
 
 DEFAULTS = {
+    "Box": ("{pt: {x: 1}}", "{pt: {x: 2, y: 5}, tags: [\"a\"]}", "null"),
+    "[Pt!]": ("[{x: 1}, {x: 2, y: 0}]", "[]"),
     "Int": ("0", "-3", "42"),
     "Float": ("1.5", "0.25", "-2.0"),
     "String": ('"x"', '"two words"', '"q\\"uote"', '""'),
@@ -121,17 +126,26 @@ def gen_sdl(seed, idx):
             _desc(r), _dirs(r, "INPUT_OBJECT"), _desc(r, "  "),
             r.choice(DEFAULTS["Int"]), _dirs(r, "INPUT_FIELD_DEFINITION")))
 
+    out.append(
+        "%sinput Box {\n  pt: Pt! = {x: 7}\n  tags: [String!]\n"
+        "  shade: Color = GREEN\n}" % _desc(r))
+
     def args():
         n = r.choice((0, 0, 1, 2, 3))
         parts = []
         names = r.sample(sorted(DEFAULTS), n)
+        described = r.random() < 0.25
         for t in names:
             a = "a_%s: %s" % (t.strip("[]!").lower() + ("s" if "[" in t
                                                         else ""), t)
             if r.random() < 0.6:
                 a += " = %s" % r.choice(DEFAULTS[t])
             a += _dirs(r, "ARGUMENT_DEFINITION")
+            if described:
+                a = _desc(r, "    ") + "    " + a
             parts.append(a)
+        if described and parts:
+            return "(\n%s\n  )" % "\n".join(parts)
         return "(%s)" % ", ".join(parts) if parts else ""
 
     n_obj = 2 + r.randrange(3)
@@ -142,21 +156,29 @@ def gen_sdl(seed, idx):
             _desc(r), _dirs(r, "INTERFACE"), _desc(r, "  "),
             _dirs(r, "FIELD_DEFINITION")))
     leaf = ("Int", "String", "Float", "Boolean", "ID", "Color", "Date",
-            "[Int!]", "String!", "[Color]")
+            "[Int!]", "String!", "[Color]", "[[Int!]!]!", "[Date]")
+    has_if2 = has_if and r.random() < 0.4
+    if has_if2:
+        out.append("interface Tagged {\n  label(a_int: Int = 1): String\n}")
     members = []
     for i, o in enumerate(objs):
         impl = has_if and r.random() < 0.6
+        impl2 = has_if2 and r.random() < 0.5
         fields = []
         if impl:
             fields.append("  id: ID!")
             members.append(o)
+        if impl2:
+            fields.append("  label(a_int: Int = 1): String")
         for j in range(1 + r.randrange(3)):
             t = r.choice(leaf + tuple(objs) + (("Node",) if has_if else ()))
             fields.append("%s  f_%d%s: %s%s%s" % (
                 _desc(r, "  "), j, args(), t, _deprecated(r),
                 _dirs(r, "FIELD_DEFINITION")))
+        ifaces = [n for n, on in (("Node", impl), ("Tagged", impl2)) if on]
         out.append("%stype %s%s%s {\n%s\n}" % (
-            _desc(r), o, " implements Node" if impl else "",
+            _desc(r), o,
+            (" implements " + " & ".join(ifaces)) if ifaces else "",
             _dirs(r, "OBJECT"), "\n".join(fields)))
     if has_if and not members:
         out.append("type Impl implements Node {\n  id: ID!\n}")
@@ -177,7 +199,14 @@ def gen_sdl(seed, idx):
     out.append("type %s {\n%s\n}" % (qname, "\n".join(qf)))
     if has_mut:
         out.append("type %s {\n  do_it(p: Pt = {x: 1}): Int\n}" % mname)
+    if not (renamed or crossed) and r.random() < 0.3:
+        out.append("type Subscription {\n  ticks(a_int: Int = 3): Int\n}")
     # extensions
+    if has_union and r.random() < 0.3:
+        out.append("type ExtraMember {\n  n: Int\n}")
+        out.append("extend union Any%s = ExtraMember" % _dirs(r, "UNION"))
+    if r.random() < 0.3:
+        out.append("extend scalar Date @tag(name: \"ext\")")
     if r.random() < 0.5:
         out.append("extend type %s%s {\n  extra_field: Int%s\n}" % (
             qname, _dirs(r, "OBJECT"), _dirs(r, "FIELD_DEFINITION")))
